@@ -23,7 +23,7 @@ RULE = ('A case is (module, optimize); the decoded journal is compared element-w
         'axiom or two claims.')
 ASSUMPTIONS = ['a shared submodule reached through two import edges is declared twice (its axioms are expected once per edge)']
 FLOORS = {'quick': {'cases': 1500, 'journals_compared': 1400, 'modules_with_10_symbols': 30, 'oversize_refused': 4, 'exactly_256_ids_ok': 2, 'optimize_pairs_compared': 700,
-                    'modules_with_imports': 200, 'modules_with_duplicate_axiom_attempt': 50}}
+                    'modules_with_imports': 200, 'modules_with_axiomless_middle_import': 50, 'modules_with_duplicate_axiom_attempt': 50}}
 FLOORS['thorough'] = dict(FLOORS['quick'], cases=30000, journals_compared=29000)
 
 
@@ -170,6 +170,8 @@ def shard(ctx):
                 ctx.count('modules_with_10_symbols')
             if 'imports' in b.tags:
                 ctx.count('modules_with_imports')
+            if 'import_chain_through_axiomless_module' in b.tags:
+                ctx.count('modules_with_axiomless_middle_import')
             ctx.case(g + b'|' + c, nontrivial=(g != b'' or c.count(b'\x1e') >= 2))
             keys[opt] = compare_journal(ctx, b, g, c, p, opt, name)
             if rng.random() < 0.004:
